@@ -311,6 +311,53 @@ func cmdCheck(args []string) {
 			known[f.Func+"#"+f.Obligation] = f
 		}
 	}
+	// A listed finding names its site by ordinal (`@Return#9`, `@after SaveBlockData#1`). When the
+	// function now has another number of sites of that kind than when the finding was recorded
+	// (bindings.json), the ordinals may have moved: a failing obligation of the same clause at a
+	// site of the same kind is then matched with a listed finding whose own site no longer exists
+	// in this run - one for one, so a further failing site is still reported.
+	bindBase := loadBindingBase()
+	siteKindOf := func(name string) (stem, kind string) {
+		name = canonSite(name)
+		i := strings.LastIndex(name, "#")
+		if i < 0 {
+			return name, ""
+		}
+		stem = name[:i]
+		kind = stem
+		if j := strings.LastIndex(stem, "@"); j >= 0 {
+			kind = strings.TrimPrefix(stem[j+1:], "after ")
+		}
+		return stem, kind
+	}
+	isShifted := func(g *OblGroup) bool {
+		_, kind := siteKindOf(g.Name)
+		if kind == "" {
+			return false
+		}
+		var fn *ssa.Function
+		if run.fns != nil {
+			fn = run.fns[g.Func]
+		}
+		return siteShifted(bindBase, g.Func, fn, kind) || strings.Contains(g.Name, "/")
+	}
+	shiftedKnown := func(g *OblGroup) (string, bool) {
+		stem, _ := siteKindOf(g.Name)
+		var cands []string
+		for k, f := range known {
+			if f.Func != g.Func {
+				continue
+			}
+			if ks, _ := siteKindOf(f.Obligation); ks == stem {
+				cands = append(cands, k)
+			}
+		}
+		if len(cands) == 0 {
+			return "", false
+		}
+		sort.Strings(cands)
+		return cands[0], true
+	}
 	root := verifRoot()
 	evDir := filepath.Join(root, "evidence")
 	if d := os.Getenv("VERIF_EVIDENCE"); d != "" {
@@ -344,7 +391,7 @@ func cmdCheck(args []string) {
 			}
 			continue
 		}
-		key := g.Func + "#" + g.Name
+		key := g.Func + "#" + canonSite(g.Name)
 		if *verbose {
 			st := "ok"
 			if !g.OK {
@@ -352,7 +399,20 @@ func cmdCheck(args []string) {
 			}
 			fmt.Printf("%-6s %s # %s (%d paths, %.2fs)\n", st, shortFunc(g.Func), g.Name, g.Paths, g.Seconds)
 		}
-		if f, isKnown := known[key]; isKnown {
+		if isShifted(g) {
+			// the ordinals of this kind of site may have moved (or the site now lies in a helper):
+			// a failing obligation of the same clause at such a site is matched with a listed
+			// finding one for one; a discharged one says nothing about the listed ones
+			if !g.OK {
+				if k, ok := shiftedKnown(g); ok {
+					f := known[k]
+					fmt.Printf("KNOWN-FINDING: property=%s %s [%s # %s; recorded as %s - the function's sites were renumbered]\n", *id, f.What, shortFunc(g.Func), g.Name, f.Obligation)
+					excluded = append(excluded, key)
+					delete(known, k)
+					continue
+				}
+			}
+		} else if f, isKnown := known[key]; isKnown {
 			if g.OK {
 				fmt.Printf("NOTE: known finding no longer reproduces (obligation now discharges): %s\n", key)
 				obligations++
@@ -1206,4 +1266,24 @@ func (e *Engine) checkNoGlobals(ng *NoGlobalsCheck) *FuncResult {
 		}
 	}
 	return res
+}
+
+// canonSite: an obligation site inside a helper that is explored inline is named with the chain of
+// calls that leads to it (`@after helper#1/SaveBlockData#1`). For matching against the recorded
+// findings only the site itself counts (`@after SaveBlockData#1`): moving code into a helper does
+// not make a recorded defect a new one.
+func canonSite(name string) string {
+	at := strings.Index(name, "@")
+	if at < 0 {
+		return name
+	}
+	site := name[at+1:]
+	pre := ""
+	if strings.HasPrefix(site, "after ") {
+		pre, site = "after ", site[len("after "):]
+	}
+	if i := strings.LastIndex(site, "/"); i >= 0 {
+		site = site[i+1:]
+	}
+	return name[:at+1] + pre + site
 }
